@@ -239,6 +239,10 @@ def run_panic_inventory(ctx, rid, entries, text, ctx_sensitive=False, kinds=None
                 return "str::" + last
             if "Vec<" in detail or "[T]" in detail:
                 return "seq::" + last
+        # the same operation on a Vec, a VecDeque or a slice (the backing store of a table changed its type)
+        for pre in ("alloc::vec::Vec::", "alloc::collections::vec_deque::VecDeque::", "core::slice::<impl [T]>::"):
+            if detail.startswith(pre):
+                return "seq::" + last
         return detail
 
     for k, r in reviewed.items():
